@@ -204,7 +204,8 @@ qbetype(struct type *t)
 	case 8: return t->prop & PROPFLOAT ? d : l;
 	case 16: fatal("long double is not yet supported");
 	}
-	assert(0);
+	error(&tok.loc, "value of incomplete type used");
+	return v;
 }
 
 /* functions */
